@@ -26,9 +26,6 @@ def _depth(task, f):
 def _none_deref(task, f):
     return "'NoneType' object has no attribute" in f["msg"]
 
-def _none_push_child(task, f):
-    return "has no attribute 'push_child'" in f["msg"]
-
 def _marked_section(task, f):
     return b"<!" in task["data"]
 
@@ -40,29 +37,18 @@ def _br_styled(task, f):
 FINDINGS = [
     ("ruby-inactive-annotation", r"^ValueError\|model\.py:(Ruby|Rtc)\.push_children<-isd\.py:(ISD\._process_element|_clone_doc_with_one_region\._copy_content_element)<-", r".*", None),
     ("recursion-deep-nesting", r"^RecursionError\|", r".*", _depth),
-    ("vtt-rt-outside-ruby", r"^AttributeError\|vtt/reader\.py:_TextCueParser\._handle_starttag<-", r"^read$", _none_push_child),
     ("vtt-stray-end-tag", r"^(TypeError\|model\.py:(Div|Body)\.push_child<-|AttributeError\|)vtt/reader\.py:_TextCueParser\.(_handle_string|_handle_starttag|_handle_ts|_handle_endtag|_make_span)<-", r"^read$", None),
     ("vtt-ruby-structure", r"^(RuntimeError\|(model\.py:\w+\.push_child<-)?|TypeError\|model\.py:(Span|Rt|Rb|Rbc|Rtc|P)\.push_child<-)vtt/reader\.py:_TextCueParser\.", r"^read$", None),
     ("vtt-percentage-overflow", r"^OverflowError\|vtt/reader\.py:parse_vtt_pct<-", r"^read$", None),
-    ("srt-stray-end-tag", r"^(TypeError\|model\.py:(Div|Body)\.push_child<-|AttributeError\|)srt/reader\.py:_TextParser\.(handle_data|handle_starttag|handle_endtag)<-", r"^read$", None),
     ("srt-font-color-without-value", r"^TypeError\|utils\.py:parse_color<-srt/reader\.py:_TextParser\.handle_starttag<-", r"^read$", None),
-    ("imsc-seq-after-indefinite-child", r"^TypeError\|imsc/elements\.py:ContentElement\.ParsingContext\.process<-", r"^read$", None),
-    ("imsc-tt-extent-one-token", r"^IndexError\|imsc/attributes\.py:ExtentAttribute\.extract<-imsc/elements\.py:TTElement\.from_xml<-", r"^read$", None),
-    ("imsc-tt-extent-overflow", r"^OverflowError\|imsc/attributes\.py:ExtentAttribute\.extract<-imsc/elements\.py:TTElement\.from_xml<-", r"^read$", None),
     ("imsc-content-inside-set", r"^TypeError\|model\.py:ContentElement\.set_space<-imsc/elements\.py:ContentElement\.ParsingContext\.process_space_attribute<-", r"^read$", None),
     ("srt-markup-declaration", r"^AssertionError\|srt/reader\.py:to_model$", r"^read$", _marked_section),
     ("isd-style-on-br", r"^(ValueError|AttributeError)\|(isd\.py:_compute_length<-)?isd\.py:StyleProcessors\.\w+\.compute<-isd\.py:ISD\._compute_styles<-", r".*", _br_styled),
-    ("imsc-zero-rate", r"^ZeroDivisionError\|(imsc/utils\.py:parse_time_expression<-)?imsc/attributes\.py:\w+\.extract<-", r"^read$", None),
-    ("stl-cumulative-block-first", r"^AttributeError\|stl/datafile\.py:DataFile\.process_tti_block<-", r"^read$", None),
-    ("stl-zero-block-count", r"^ZeroDivisionError\|stl/reader\.py:to_model$", r"^read$", None),
     ("stl-zero-row-count", r"^ZeroDivisionError\|stl/datafile\.py:DataFile\.process_tti_block<-", r"^read$", None),
     ("scc-no-caption-to-process", r"^AttributeError\|scc/context\.py:SccContext\.\w+<-(scc/context\.py:SccContext\.\w+<-)*scc/line\.py:SccLine\.process<-", r"^read$", _none_deref),
     ("negative-begin-unwritable", r"^ValueError\|time_code\.py:ClockTime\.from_seconds<-imsc/attributes\.py:to_time_format<-", r"imsc", None),
     ("writer-time-overflow", r"^OverflowError\|((srt/writer\.py:SrtContext|vtt/writer\.py:VttContext)\.add_isd<-|time_code\.py:\w+\.\w+<-(time_code\.py:\w+\.\w+<-)*imsc/attributes\.py:to_time_format<-)", r"(srt|vtt|imsc)", None),
     ("cue-shorter-than-a-millisecond", r"^ValueError\|(srt/paragraph\.py:SrtParagraph|vtt/cue\.py:VttCue)\.to_string<-", r"(srt|vtt)", None),
-    ("imsc-writer-aspect-ratio-overflow", r"^OverflowError\|imsc/attributes\.py:DisplayAspectRatioAttribute\.set<-", r"imsc", None),
-    ("imsc-writer-special-values", r"^AttributeError\|imsc/style_properties\.py:StyleProperties\.\w+\.(from_model|has_px)<-", r"imsc", None),
-    ("lcd-position", r"^(AttributeError|AssertionError)\|isd\.py:StyleProcessors\.Position\.compute<-filters/doc/lcd\.py:LCDDocFilter\.process$", r"^lcd", None),
 ]
 
 
